@@ -50,7 +50,7 @@ func (c *tclient) send(argv ...string) {
 }
 
 func (c *tclient) recvErr() (Value, error) {
-	c.conn.SetReadDeadline(time.Now().Add(3 * time.Second))
+	c.conn.SetReadDeadline(time.Now().Add(20 * time.Second))
 	return Decode(c.r)
 }
 
@@ -136,7 +136,7 @@ func newServer(t *testing.T, opt Options) (*Server, *recorder) {
 
 func waitFor(t *testing.T, what string, cond func() bool) {
 	t.Helper()
-	deadline := time.Now().Add(3 * time.Second)
+	deadline := time.Now().Add(20 * time.Second)
 	for !cond() {
 		if time.Now().After(deadline) {
 			t.Fatalf("timeout waiting for %s", what)
@@ -209,7 +209,7 @@ func TestBufconnDeadlines(t *testing.T) {
 		if !errors.Is(err, os.ErrDeadlineExceeded) {
 			t.Fatalf("err %v", err)
 		}
-	case <-time.After(time.Second):
+	case <-time.After(20 * time.Second):
 		t.Fatal("blocked reader was not woken by the new deadline")
 	}
 }
@@ -559,6 +559,58 @@ func TestEventOrder(t *testing.T) {
 	})
 	if len(s.Conns()) != 1 || !s.Conn(2).Closed() {
 		t.Fatal("closed connection still listed")
+	}
+}
+
+// TestEventPrecedesFrame checks that a push frame produced inside a command
+// handler (PUBLISH, subscribe confirmation, invalidation) cannot reach the
+// client before its SPush event reached the sink: otherwise a driver could log
+// the client's reaction ahead of the event that caused it.
+func TestEventPrecedesFrame(t *testing.T) {
+	s := NewServer("node1", Options{})
+	defer s.Close()
+	var mu sync.Mutex
+	var early []string
+	s.SetEventSink(func(ev Event) {
+		switch ev.Kind {
+		case SExec:
+			time.Sleep(10 * time.Millisecond) // give an eager writer time to run ahead
+		case SPush:
+			if n := s.Conn(ev.Conn).ClientConn().Buffered(); n != 0 {
+				mu.Lock()
+				early = append(early, ev.Reply.String())
+				mu.Unlock()
+			}
+		}
+	})
+	c := dial3(t, s)
+	c.do("CLIENT", "TRACKING", "ON")
+	c.send("SUBSCRIBE", "ch")
+	want(t, c.recv(), Push(Bulk("subscribe"), Bulk("ch"), Int(1)))
+	want(t, s.Do("PUBLISH", "ch", "m"), Int(1))
+	want(t, c.recv(), Push(Bulk("message"), Bulk("ch"), Bulk("m")))
+	c.do("GET", "k")
+	s.Do("SET", "k", "v")
+	want(t, c.recv(), invalidate("k"))
+	c.send("UNSUBSCRIBE")
+	want(t, c.recv(), Push(Bulk("unsubscribe"), Bulk("ch"), Int(0)))
+	// Frames deferred behind a QUIT still arrive, in order, before the close.
+	c.send("MULTI")
+	c.send("SUBSCRIBE", "late")
+	c.send("EXEC")
+	c.send("QUIT")
+	want(t, c.recv(), Simple("OK"))
+	want(t, c.recv(), Simple("QUEUED"))
+	want(t, c.recv(), Push(Bulk("subscribe"), Bulk("late"), Int(1)))
+	want(t, c.recv(), Array())
+	want(t, c.recv(), Simple("OK"))
+	if _, err := c.recvErr(); err != io.EOF {
+		t.Fatalf("after QUIT: %v", err)
+	}
+	mu.Lock()
+	defer mu.Unlock()
+	if len(early) > 0 {
+		t.Fatalf("frames visible to the client before their SPush event: %v", early)
 	}
 }
 
@@ -970,7 +1022,7 @@ func TestBlockingPop(t *testing.T) {
 	if !got.IsNull() {
 		t.Fatalf("timeout reply %v", got)
 	}
-	if el := time.Since(start); el < 40*time.Millisecond || el > 2*time.Second {
+	if el := time.Since(start); el < 40*time.Millisecond || el > 20*time.Second {
 		t.Fatalf("timeout took %v", el)
 	}
 	wantErrPrefix(t, c.do("BLPOP", "q", "-1"), "ERR timeout is negative")
@@ -1137,7 +1189,7 @@ func TestCutAfterNextReplyBytes(t *testing.T) {
 	s.Conns()[0].CutAfterNextReplyBytes(7) // "$10\r\n01" of "$10\r\n0123456789\r\n"
 	c.send("GET", "k")
 	c.send("PING")
-	c.conn.SetReadDeadline(time.Now().Add(3 * time.Second))
+	c.conn.SetReadDeadline(time.Now().Add(20 * time.Second))
 	raw, err := io.ReadAll(c.r)
 	if err != nil {
 		t.Fatalf("read: %v", err)
